@@ -368,7 +368,7 @@ def _traverse(program, rep):
         if oky:
             d, chip, outs = yt[1:]
             pop = [t for t in subterms(NODE)
-                   if t[0] == "call" and t[1][0] == "attr" and
+                   if t[0] in ("call", "callv") and t[1][0] == "attr" and
                    t[1][2] in ("popleft", "pop") and t[1][1] == Q]
             oky = bool(pop) and NODE == ("comp", pop[0], 1) and \
                 d == ("comp", pop[0], 0) and \
